@@ -90,7 +90,7 @@ def jobs(tier):
                  n_batch=1, K=2))
         add(dict(m=[], explored=False, n_batch=1, K=2))
         add(dict(m=[1, 1, 0], explored=False, n_batch=2, K=1, prov=[0, 1],
-                 no_new_bound=True, blobs='scalar'), max_paths=80000)
+                 no_new_bound=True, blobs='scalar'), max_paths=20000)
         add(dict(m=[1, 1, 1], explored=True, end_exp=[1, 1, 1], n_batch=1,
                  K=1))
     return jobs
